@@ -306,6 +306,134 @@ pub fn judge(c: &Conn) {
         count("u14_pubrel_checked", rels);
     }
 
+    // ------------------------------------------------------------------ C11: an identifier in use is not delivered again
+    // Lower bound of "in use": a QoS 1 identifier at least until its handler has ended (the
+    // PUBACK cannot be produced earlier); a QoS 2 identifier at least until its handler has ended
+    // *and* the exchange was completed (the peer's PUBREL / the endpoint's PUBCOMP or failing
+    // PUBREC has been seen) - with unstructured peer bytes only the first half is used.
+    {
+        // id -> (call, qos, handler ended, a PUBREL was accepted while this QoS 1 exchange was open)
+        let mut in_use: HashMap<u16, (u32, u8, bool, bool)> = HashMap::new();
+        // PUBRELs the peer has sent per id (logged when they are written, possibly long before
+        // the endpoint gets to them) and exchanges completed per id
+        let mut rel_seen: HashMap<u16, u32> = HashMap::new();
+        let mut rel_used: HashMap<u16, u32> = HashMap::new();
+        // running PUBREL handlers: call -> id
+        let mut rel_calls: HashMap<u32, u16> = HashMap::new();
+        let mut checked = 0u64;
+        macro_rules! settle_q2 {
+            ($id:expr) => {{
+                let id: u16 = $id;
+                if in_use.get(&id).is_some_and(|e| e.1 == 2 && e.2) && rel_seen.get(&id).copied().unwrap_or(0) > rel_used.get(&id).copied().unwrap_or(0) {
+                    in_use.remove(&id);
+                    *rel_used.entry(id).or_insert(0) += 1;
+                }
+            }};
+        }
+        for t in &tl {
+            match t {
+                T::Ev(Ev::PubEnter { call, pid: Some(id), qos, .. }) if *qos > 0 => {
+                    checked += 1;
+                    if let Some((_, q, ended, stray)) = in_use.get(id) {
+                        found.push((
+                            "C11",
+                            if *stray {
+                                // known finding (DESIGN.md §10.2): the library keeps one set of identifiers for
+                                // all kinds of exchanges, a PUBREL releases whatever exchange holds the identifier
+                                "publish delivered while its identifier is held by a QoS 1 exchange that a PUBREL of the peer had released".to_string()
+                            } else {
+                                format!("publish delivered to a handler while its packet identifier is still in use (QoS {q} exchange, handler {})", if *ended { "ended, exchange not completed" } else { "still running" })
+                            },
+                            format!("id {id}"),
+                        ));
+                    }
+                    in_use.insert(*id, (*call, *qos, false, false));
+                }
+                T::Ev(Ev::PubExit { call, .. }) | T::Ev(Ev::PubDropped { call }) => {
+                    let id = in_use.iter().find_map(|(id, (c, _, _, _))| (c == call).then_some(*id));
+                    if let Some(id) = id {
+                        let e = in_use.get_mut(&id).unwrap();
+                        if e.1 == 1 || raw {
+                            in_use.remove(&id);
+                        } else {
+                            e.2 = true;
+                            settle_q2!(id);
+                        }
+                    }
+                }
+                T::In(R::PubRel { pid, .. }) => {
+                    *rel_seen.entry(*pid).or_insert(0) += 1;
+                    settle_q2!(*pid);
+                }
+                // the endpoint accepted a PUBREL (the identifier is not always logged): every open
+                // QoS 1 exchange may have been the one it released
+                T::Ev(Ev::ProtoEnter { call, kind, pid }) if *kind == "pubrel" => {
+                    match pid {
+                        Some(id) => {
+                            rel_calls.insert(*call, *id);
+                            if let Some(e) = in_use.get_mut(id) {
+                                if e.1 == 1 {
+                                    e.3 = true;
+                                }
+                            }
+                        }
+                        None => {
+                            for e in in_use.values_mut() {
+                                if e.1 == 1 {
+                                    e.3 = true;
+                                }
+                            }
+                        }
+                    }
+                }
+                // the PUBREL handler has returned: the PUBCOMP is produced (it may be written
+                // later, behind earlier responses), the QoS 2 exchange is over
+                T::Ev(Ev::ProtoExit { call, .. }) => {
+                    if let Some(id) = rel_calls.remove(call) {
+                        if in_use.get(&id).is_some_and(|e| e.1 == 2) {
+                            in_use.remove(&id);
+                            let u = rel_used.entry(id).or_insert(0);
+                            if *u < rel_seen.get(&id).copied().unwrap_or(0) {
+                                *u += 1;
+                            }
+                        }
+                    }
+                }
+                T::Out(R::PubComp { pid, .. }) => {
+                    if in_use.get(pid).is_some_and(|e| e.1 == 2) {
+                        in_use.remove(pid);
+                        let u = rel_used.entry(*pid).or_insert(0);
+                        if *u < rel_seen.get(pid).copied().unwrap_or(0) {
+                            *u += 1;
+                        }
+                    }
+                }
+                T::Out(R::PubRec { pid, code, .. }) if !success_code(code) => {
+                    in_use.remove(pid);
+                }
+                T::Out(R::PubAck { pid, .. }) => {
+                    if in_use.get(pid).is_some_and(|e| e.1 == 1) {
+                        in_use.remove(pid);
+                    }
+                }
+                _ => {}
+            }
+        }
+        count("u11_deliveries_checked", checked);
+    }
+
+    // ------------------------------------------------------------------ C12: handler concurrency within the configured maximum (MQTT 3.1.1)
+    // The in-flight limiter of the v3 roles bounds the number of requests being handled; the
+    // publish handlers running at once are a lower bound of that number.
+    if matches!(role, Role::V3Server | Role::V3Client) && c.cfg.inflight_middleware && c.cfg.max_receive > 0 {
+        let seen = app.pubs_running_max.get() as u64;
+        count("u12_connections_checked", 1);
+        maxc("u12_handlers_running_at_once", seen);
+        if seen > c.cfg.max_receive as u64 {
+            found.push(("C12", format!("more publish handlers executing at once than max_receive ({seen} > {})", c.cfg.max_receive), String::new()));
+        }
+    }
+
     // ------------------------------------------------------------------ C03: success ack only after the handler succeeded; handler at most once per PUBLISH
     {
         // successful handler exits per packet id, not yet used up by an acknowledgement
